@@ -249,6 +249,7 @@ class Result:
         self.flags = {}          # (line, category, message) -> count
         self.outcomes = []       # (kind, value, line)
         self.notes = set()
+        self.bound = {}          # (line, variable name) -> set of unit descriptions it was bound to
 
     def flagged(self, category=None):
         return [(k, n) for k, n in self.flags.items() if category is None or k[1] == category]
@@ -1033,6 +1034,10 @@ class Interp:
     def bind(self, target, v, node):
         if isinstance(target, ast.Name):
             self.env.set(target.id, v)
+            if isinstance(v, Num):
+                self.R.bound.setdefault((getattr(target, 'lineno', 0), target.id), set()).add(repr(self.bound_unit(v.unit)))
+            elif isinstance(v, Lit):
+                self.R.bound.setdefault((getattr(target, 'lineno', 0), target.id), set()).add('0' if v.v == 0 else 'literal')
         elif isinstance(target, (ast.Tuple, ast.List)):
             elts = target.elts
             if any(isinstance(e, ast.Starred) for e in elts):
